@@ -6,4 +6,4 @@ mkdir -p .work
 echo "== /repo"; for i in $(seq -w 1 18); do ./check C$i | tail -1; done | grep -v " 0 new violation" ; echo "   (lines above = checks that alarm on /repo)"
 echo "== mutants"; python3 rules/mutants.py all 2>&1 | grep -v "^      " > .work/mut_all.log; grep -E "missed=\[.+\]|FALSE|skipped|compile|Traceback|Error" .work/mut_all.log; echo "   $(wc -l < .work/mut_all.log) mutants run"
 echo "== seeds"; python3 tools/run_seeds.py > .work/seeds.log 2>&1; grep -E "MISSED|apply|Traceback|Error" .work/seeds.log; echo "   $(grep -c 'caught by its own' .work/seeds.log) seeds caught by their own property"
-echo "== refactors"; REFACTS_DIR=/verif/.work/refacts python3 tools/run_patches.py 8f7865a refactors/*.diff refactors2/*.diff refactors3/*.diff refactors4/*.diff refactors5/*.diff refactors6/*.diff refactors7/*.diff refactors8/*.diff > .work/refactor.log 2>&1; grep -E "ALARMS|Traceback|Error" .work/refactor.log | tr '\n' ' '; echo; echo "   $(grep -c quiet .work/refactor.log) of $(ls refactors/*.diff refactors2/*.diff refactors3/*.diff refactors4/*.diff refactors5/*.diff refactors6/*.diff refactors7/*.diff refactors8/*.diff | wc -l) refactors quiet"
+echo "== refactors"; REFACTS_DIR=/verif/.work/refacts python3 tools/run_patches.py 8f7865a refactors/*.diff refactors2/*.diff refactors3/*.diff refactors4/*.diff refactors5/*.diff refactors6/*.diff refactors7/*.diff refactors8/*.diff refactors9/*.diff > .work/refactor.log 2>&1; grep -E "ALARMS|Traceback|Error" .work/refactor.log | tr '\n' ' '; echo; echo "   $(grep -c quiet .work/refactor.log) of $(ls refactors/*.diff refactors2/*.diff refactors3/*.diff refactors4/*.diff refactors5/*.diff refactors6/*.diff refactors7/*.diff refactors8/*.diff refactors9/*.diff | wc -l) refactors quiet"
